@@ -8,7 +8,7 @@
 From Coq Require Import List NArith.
 From stdpp Require Import gmap.
 From RaftModel Require Import Base Config Commitment Node NodeCodec Leader Cluster ClusterLog ClusterCommit.
-From RaftProofs Require Import CommitmentProofs LeaderProofs AppendProofs VoteProofs ClusterCommitSpec ClusterCommitMain ClusterCommitLog ClusterProofs.
+From RaftProofs Require Import CommitmentProofs LeaderProofs AppendProofs VoteProofs ClusterCommitSpec ClusterCommitMain ClusterCommitLog ClusterCommitAcks2 ClusterProofs.
 Open Scope N_scope.
 
 (* current-term rule at the call site: a new leader's commitment starts above everything its log
@@ -81,3 +81,14 @@ Theorem C03_leader_completeness_all_runs : forall cfg g0 ls g,
   leader_complete g.
 Proof. intros cfg g0 ls g H0 Hl Hr. destruct (state_machine_safety cfg g0 ls g H0 Hl Hr) as (_ & A & _). exact A. Qed.
 Print Assumptions C03_leader_completeness_all_runs.
+
+
+(* DURABLE ACKNOWLEDGEMENTS: an entry whose future a leader of term T answered without error at ANY
+   point of the run is, in every later state, held at its index by every Leader of a term >= T, and
+   is the entry every running server that knows that index committed holds there: it is never
+   overwritten, truncated or re-assigned (same system and side conditions as above). *)
+Theorem C03_acknowledged_entries_are_permanent : forall cfg g0 ls g,
+  cinit_ok cfg g0 -> Forall label_ok ls -> crun false [cfg] g0 ls = Some g ->
+  acks_permanent (run_acks false [cfg] g0 ls) g.
+Proof. exact acknowledged_entries_are_permanent. Qed.
+Print Assumptions C03_acknowledged_entries_are_permanent.
